@@ -25,7 +25,7 @@ def gen_case(rng, tier):
         sfa = rng.randrange(n)
         if rng.random() < 0.4:
             fails = sorted({rng.randrange(n) for _ in range(2)})
-    lats = rng.choice([[0], [0, 3, 1], [8, 0, 0, 2], [1, 20, 1, 1, 1], [5, 4, 3, 2, 1, 0]])
+    lats = rng.choice([[0], [0, 3, 1], [8, 0, 0, 2], [1, 20, 1, 1, 1], [5, 4, 3, 2, 1, 0], [30, 25], [40]])
     return dict(kind='ppar', executor=rng.choice(['process', 'process', 'process', 'thread']), n=n, conc=conc,
                 rexc=rng.random() < 0.4, rx=rng.random() < 0.4, fails=fails, lats=lats, stop_at=stop_at,
                 src_fail_at=sfa, again=rng.random() < 0.3)
@@ -36,6 +36,12 @@ FIXED = [
     dict(kind='ppar', executor='process', n=12, conc=1, rexc=False, rx=True, fails=[], lats=[3, 0], stop_at=1, src_fail_at=None, again=True),
     dict(kind='ppar', executor='process', n=30, conc=4, rexc=True, rx=True, fails=[0, 7, 29], lats=[9, 0, 0, 0, 4], stop_at=None, src_fail_at=None, again=False),
     dict(kind='ppar', executor='process', n=20, conc=2, rexc=False, rx=False, fails=[11], lats=[0, 15], stop_at=None, src_fail_at=5, again=False),
+    # calls long enough (30-40 ms) for every pool process to get work: the number of processes and of overlapping calls
+    dict(kind='ppar', executor='process', n=20, conc=2, rexc=False, rx=False, fails=[], lats=[30, 30], stop_at=None, src_fail_at=None, again=False),
+    dict(kind='ppar', executor='process', n=24, conc=3, rexc=True, rx=True, fails=[5], lats=[40], stop_at=None, src_fail_at=None, again=False),
+    # the default concurrency (None) and a consumer that stalls after the first output: look-ahead <= 2 * default + 3
+    dict(kind='ppar', executor='process', n=120, conc=None, rexc=False, rx=False, fails=[], lats=[5], stop_at=None, src_fail_at=None, again=False, pause=1.5),
+    dict(kind='ppar', executor='thread', n=120, conc=None, rexc=False, rx=False, fails=[], lats=[5], stop_at=None, src_fail_at=None, again=False, pause=1.0),
 ]
 
 
@@ -99,8 +105,9 @@ def sample(chk, prop, n):
         for rd in r['rounds']:
             k = 'end:' + rd['end'].split(':')[0]
             dist[k] = dist.get(k, 0) + 1
-        dist['max_ahead_minus_capacity'] = max(dist.get('max_ahead_minus_capacity', -99), r['stats']['max_ahead'] - 2 * case['conc'])
-        dist['max_running_eq_concurrency'] = dist.get('max_running_eq_concurrency', 0) + (r['stats']['max_running'] == case['conc'])
+        if case['conc'] is not None:
+            dist['max_ahead_minus_capacity'] = max(dist.get('max_ahead_minus_capacity', -99), r['stats']['max_ahead'] - 2 * case['conc'])
+            dist['max_running_eq_concurrency'] = dist.get('max_running_eq_concurrency', 0) + (r['stats']['max_running'] == case['conc'])
         dist['max_case_wall_s'] = round(max(dist.get('max_case_wall_s', 0), r['wall']), 2)
     chk.cov['evaluations'] += nok
     if 'E4-processes(sampled)' not in chk.cov['engines']:
